@@ -3,6 +3,7 @@ package main
 import (
 	"fmt"
 	"go/constant"
+	"go/token"
 	"go/types"
 	"sort"
 	"strings"
@@ -31,6 +32,7 @@ func checkC01(c *Ctx) {
 		"C01.pure: DeriveKeyPair / EncapsulateDeterministically / AuthEncapsulateDeterministically of every kem.Scheme implementation reach no source of nondeterminism",
 		"C01.fo: implicit rejection in ML-KEM, Kyber and FrodoKEM: the whole received ciphertext is compared in constant time with the re-encryption, the comparison result is used only as the selector of a constant-time copy (no branch), the selector constants for match/mismatch select the honest key resp. the rejection secret, and the returned secret depends on rejection secret and ciphertext",
 		"C01.bind: X-Wing's combiner absorbs both secrets, the X25519 ciphertext share, the recipient X25519 key and the label in that order; hybrid KEM results depend on both components; HPKE DHKEM binds enc and pkR (see C07)",
+		"C01.keylen: every kem.Scheme implementation's UnmarshalBinaryPublicKey / UnmarshalBinaryPrivateKey rejects an over-long encoding (sibling cross-check over all implementers)",
 		"C01.guard: decapsulation / deterministic encapsulation reject wrong lengths and propagate component errors; key parsing rejects wrong lengths",
 		"C01.table: advertised sizes equal the lengths used by marshalling and size checks (hybrid sizes are sums)")
 	c.NotDec = append(c.NotDec, "that decapsulation inverts encapsulation (lattice arithmetic)", "pseudorandomness of the rejection secret", "FrodoKEM matrix arithmetic")
@@ -110,6 +112,58 @@ func checkC01(c *Ctx) {
 		}
 		if f := p.method(n, "EncapsulateDeterministically"); f != nil {
 			c.lenReject(p, "C01.guard", f, "#2", false)
+		}
+		// sibling cross-check: every scheme's key decoders accept only the exact encoded length
+		for _, m := range []string{"UnmarshalBinaryPublicKey", "UnmarshalBinaryPrivateKey"} {
+			if g := p.method(n, m); g != nil && g.Synthetic == "" {
+				if len(p.callSites(g, "invoke (crypto/ecdh.Curve).NewPublicKey", "invoke (crypto/ecdh.Curve).NewPrivateKey")) > 0 {
+					// crypto/ecdh's key constructors reject every length but the curve's (standard-library summary)
+					c.guard(p, "C01.keylen", "over-long #1 rejected (by crypto/ecdh)", g, GuardSpec{Args: map[string]lat{"#1": latBigSlice}, ArgsMayExclude: true,
+						Assumes: []Assume{calleeAssume(latNonNil, 1, "invoke (crypto/ecdh.Curve).NewPublicKey", "invoke (crypto/ecdh.Curve).NewPrivateKey")}})
+				} else {
+					c.lenReject(p, "C01.keylen", g, "#1", false)
+				}
+			}
+		}
+	}
+
+	// ---- sizes of the composite KEMs: each size accessor is the sum of the components' ----
+	for _, comp := range []struct{ pkg, typ string }{{"hpke", "hybridKEM"}, {"kem/hybrid", "scheme"}} {
+		for _, m := range []string{"PublicKeySize", "PrivateKeySize", "CiphertextSize", "SharedKeySize"} {
+			f := p.Func(comp.pkg, comp.typ, m)
+			construct := fmt.Sprintf("(%s.%s).%s = sum of the two components' %s", comp.pkg, comp.typ, m, m)
+			if f == nil || f.Blocks == nil {
+				c.bad("C01.table", construct, "the composite type does not declare this accessor itself (missing, or promoted from an embedded base whose value has another meaning)", "")
+				continue
+			}
+			okSum := false
+			var got string
+			for _, b := range f.Blocks {
+				ret, isRet := b.Instrs[len(b.Instrs)-1].(*ssa.Return)
+				if !isRet || len(ret.Results) != 1 {
+					continue
+				}
+				got = descVal(ret.Results[0])
+				bo, isAdd := ret.Results[0].(*ssa.BinOp)
+				if !isAdd || bo.Op != token.ADD {
+					continue
+				}
+				ca, ok1 := bo.X.(*ssa.Call)
+				cb, ok2 := bo.Y.(*ssa.Call)
+				if ok1 && ok2 && strings.HasSuffix(p.staticCalleeName(&ca.Call), ")."+m) && strings.HasSuffix(p.staticCalleeName(&cb.Call), ")."+m) && descVal(ca.Call.Value) != descVal(cb.Call.Value) {
+					okSum = true
+				}
+			}
+			// the method must be the type's own (not promoted from an embedded base with another meaning)
+			own := f.Signature.Recv() != nil && strings.HasSuffix(strings.TrimPrefix(f.Signature.Recv().Type().String(), "*"), "."+comp.typ)
+			switch {
+			case !own:
+				c.bad("C01.table", construct, "the accessor is not declared on the composite type (promoted from "+f.Signature.Recv().Type().String()+")", p.fnPos(f))
+			case okSum:
+				c.ok("C01.table", construct, got, p.fnPos(f))
+			default:
+				c.bad("C01.table", construct, "returns "+got, p.fnPos(f))
+			}
 		}
 	}
 
